@@ -73,7 +73,16 @@ func TestC07Inject(t *testing.T) {
 		// packets then left unacknowledged (window state base=pre%s,
 		// top=(pre+held)%s)
 		for pre := 0; pre <= int(n)+1; pre++ {
-			for held := 0; held <= int(n); held++ {
+			for hv := -1; hv <= int(n); hv++ {
+				held := hv
+				// held = -1: the idle queue - everything sent has been
+				// acknowledged and nothing is in flight when the forged
+				// packet arrives; the resend timer fires before the next
+				// message is sent
+				idle := held < 0
+				if idle {
+					held = 0
+				}
 				// larger windows: the corner states of the window and the
 				// sequence values around it (every state x every byte is
 				// done for n <= 3 and, on the queue alone, by C09)
@@ -86,22 +95,49 @@ func TestC07Inject(t *testing.T) {
 						int(in.pkt[1]) > int(n)+2 && in.pkt[1] != 100 && in.pkt[1] < 254 {
 						continue
 					}
-					if !thorough && (idx+int(seed()))%7 != 0 &&
+					// every tier runs the forged ACKs / NACKs whose
+					// sequence byte lies next to the window's base or
+					// top (in particular the idle queue, held = 0,
+					// with an ACK for the next unsent number); the
+					// rest is sampled in the quick tier
+					near := false
+					if len(in.pkt) == 2 && (in.pkt[0] == gbn.ACK || in.pkt[0] == gbn.NACK) {
+						sp := int(n) + 1
+						q := int(in.pkt[1])
+						for _, w := range []int{pre % sp, (pre + held) % sp} {
+							for d := -1; d <= 1; d++ {
+								if q == (w+d+sp)%sp {
+									near = true
+								}
+							}
+						}
+					}
+					if idle && !near {
+						continue
+					}
+					if !thorough && !near && (idx+int(seed()))%7 != 0 &&
 						!(held == int(n) && pre == int(n)) {
 						continue
 					}
 					n, pre, held, in := n, pre, held, in
 					desc := map[string]any{"n": int(n), "pre": pre,
-						"held": held, "inj": in.name, "i": idx}
+						"held": held, "inj": in.name, "i": idx, "idle": idle}
+					extra := 2
+					if idle {
+						extra = 1
+					}
 					noteCurrent(dir, desc)
 					cfg := gbnrun.Config{
 						N:           n,
 						Static:      time.Second,
-						Msgs:        [2]int{pre + held + 2, 1},
+						Msgs:        [2]int{pre + held + extra, 1},
 						Latency:     10 * time.Millisecond,
 						Horizon:     2 * time.Minute,
 						ManualStart: true,
 						Gap: func(ep string, id int) time.Duration {
+							if ep == "c" && id == pre+1 && idle {
+								return 4 * time.Second
+							}
 							if ep == "c" && id == pre+1 {
 								return 500 * time.Millisecond
 							}
